@@ -150,7 +150,7 @@ func genWOpHint(s sim.Source, pool []*model.Pattern, methods []string, tag int, 
 		}
 		return op
 	}
-	op.Opt.TS = sim.Pick(s, "ropt", []int{0, 0, 0, 1, 2, 3})
+	op.Opt.TS = sim.Pick(s, "ropt", []int{0, 0, 0, 1, 2, 3, 4, 5, 6, 7})
 	if badRate > 0 && s.Intn("bad", 100) < badRate {
 		switch s.Intn("badkind", 4) {
 		case 0, 1:
